@@ -40,6 +40,7 @@ XMLNS = "http://www.w3.org/XML/1998/namespace"
 RESERVED = re.compile(r"ns\d+$", flags=re.ASCII)
 KEY_SCRIPT = "C06-global-prefix-registry"
 KEY_PATCH = "C06-global-prefix-registry-patch"
+XMLNS_ID = "{%s}id" % XMLNS
 
 
 # ----------------------------------------------------------------------------
@@ -265,8 +266,17 @@ def pollution_for(lx, rx):
     return pairs
 
 
+POLLUTE_OPTS = [{"ignored_attrs": [XMLNS_ID]}, {"ignored_attrs": [XMLNS_ID, "i"], "uniqueattrs": None},
+                {"uniqueattrs": ["i", ("a", "j")], "ignored_attrs": ["i"]}, {"uniqueattrs": [], "F": 0.9, "fast_match": True},
+                {"best_match": True, "ratio_mode": "accurate"}]
+
+
 def pollute(pairs):
-    from xmldiff import main, formatting
+    from xmldiff import main, formatting, diff
+    # Differ objects built with OTHER options (and used once) in between: defaults must not be shared mutable state
+    for o in (POLLUTE_OPTS if pairs else []):
+        call(lambda: list(diff.Differ(**o).diff(X('<r><a xml:id="q1" i="1">t</a></r>'), X('<r><a xml:id="q2" i="2">t</a><b/></r>'))))
+        call(lambda: main.diff_trees(X('<r><a xml:id="q1" i="1">t</a></r>'), X('<r><a xml:id="q2" i="2">t</a><b/></r>'), diff_options=dict(o)))
     for a, b in pairs:
         call(lambda: main.diff_trees(X(a), X(b)))
         call(lambda: main.diff_trees(X(a), X(b), formatter=formatting.XMLFormatter()))
@@ -1128,11 +1138,13 @@ def main(run):
                              "subprocess_comparisons", "subprocess_differences", "subprocess_runs", "known_stream",
                              "known_stream_differences", "patcher_reuse", "formatter_reuse", "differ_same_objects")}
     pairs = gen_pairs(rng, 70 if quick else 1500)
+    from harness.differ_props import XMLID_STREAM
+    pairs += [(a, b, o) for a, b in XMLID_STREAM for o in ({}, {"fast_match": True})]
     pairs += [(a, b, {}) for a, b in ATTR_HEAVY] + [(HAND_POOL[i], HAND_POOL[j], {}) for i, j in ((6, 7), (7, 6), (6, 9), (9, 6), (6, 8), (4, 5))]
     monitor_mutation(rng, pairs, viols, counts)
     run.log("monitor (inputs untouched): %d diff_trees, %d Differ API, %d patch_tree, %d format calls; %d violations so far"
             % (counts["diff_trees"], counts["differ_api"], counts["patch_tree"], counts["format"], len(viols)))
-    monitor_history(run, rng, pairs[: (40 if quick else 800)] + pairs[-9:], viols, counts, "history")
+    monitor_history(run, rng, pairs[: (40 if quick else 800)] + pairs[-17:], viols, counts, "history")
     # labelled stream: namespaces declared below the root (the recorded finding lives here)
     nonroot = [(a, b, {}) for a, b in NONROOT_NS]
     monitor_history(run, rng, nonroot, viols, counts, "nonroot_stream")
@@ -1141,7 +1153,7 @@ def main(run):
     monitor_reuse_objects(rng, pairs[: (50 if quick else 600)], viols, counts)
     # namespace-introducing pairs, in order, in one process: base / adversarial diffs / again
     monitor_history(run, rng, [(a, b, {}) for a, b in NS_INTRO], viols, counts, "history")
-    corpus = [[a, b, o] for a, b, o in (pairs[: (30 if quick else 400)] + pairs[-9:])] + [[a, b, {}] for a, b in NS_INTRO]
+    corpus = [[a, b, o] for a, b, o in (pairs[: (30 if quick else 400)] + pairs[-17:])] + [[a, b, {}] for a, b in NS_INTRO]
     monitor_processes(run, rng, corpus, viols, counts)
     run.log("monitor (history): %d in-process re-computations after adversarial diffs (%d differed), non-root-namespace stream %d (%d differed), "
             "%d XMLFormatter / %d Differ reuse comparisons; %d subprocess runs, %d comparisons (%d differed); known-finding stream: %d differences"
